@@ -139,6 +139,7 @@ pub fn run(ctx: &Ctx) -> Report {
      domain/IPv4/IPv6 peers in non-normalised spellings; index lists with duplicates and disorder; printed URI decoded by the harness's own parser in both + conventions and by imdl's parser; \
      Metainfo::trackers order/dedup; CLI `torrent link --peer --select-only`, `create --link`, `from-link` acceptance; non-trivial = name or tracker contains a reserved character; distinct by case hash",
   );
+  report.rule.push_str("; `torrent link` on generated torrents of every accepted shape (topic = stored span, name, trackers in first-appearance order); tracker texts ending in `/`, differing as text but equal once parsed, or not URLs at all (must fail, not be dropped); topics of 32/42/64 characters and `+1` pairs rejected; `--select-only 4 2` after one flag; create --link with and without --dry-run");
   report.correspondences.push("C10.url: MagnetLink::to_url = Imdlv.Magnet.toUrl".into());
   report.correspondences.push("C10.trackers: Metainfo::trackers = Imdlv.Magnet.trackers".into());
   let mut model = Model::spawn(&ctx.vmodel);
